@@ -1,6 +1,8 @@
 """C18 helper — the blocks whose schematics are validated: (1) structural library blocks at several widths / arities,
 (2) random netlists (py/designs.py style) wrapped in a Logic subclass with real in/out ports.
-Everything is reproducible from a small JSON-able recipe:  ('lib', name, params)  or  ('rand', seed, params)."""
+(3) whole port-less HWSystems, input-only / output-only blocks and the accumulator loop in every port configuration.
+Everything is reproducible from a small JSON-able recipe:  ('lib', name, params) | ('rand', seed, params) |
+('top', seed, params) | ('loop', variant) | ('selfloop', variant)."""
 import random
 from common import quiet, quiet_import
 
@@ -93,131 +95,146 @@ def build_lib(name, params):
 
 
 # ---------------------------------------------------------------------------------------------- random netlists
+def _populate(self, py4hw, ins, outs, rng, p):
+    """fills the structural block `self` (a Logic subclass instance, or a bare HWSystem drawn as a whole) with a
+    random netlist.  Every wire is driven by construction (block in-port or child output); the combinational part
+    is acyclic, feedback only through Reg; children are instantiated in a shuffled order."""
+    max_w = p.get('max_w', 8)
+    pool = []
+    for i, w in enumerate(ins):
+        pool.append(self.addIn('in%d' % i, w))
+    if p.get('unused_in') and len(pool) > 1:
+        pool.pop(rng.randrange(len(pool)))            # an in-port nobody reads
+    pre = []
+    for i in range(p.get('n_const_src', 0)):          # port-less blocks: constants play the role of the inputs
+        k = self.wire('k%d' % i, rng.randint(1, max_w)); v = rng.randrange(1 << k.getWidth())
+        pre.append(('const', lambda i=i, k=k, v=v: py4hw.Constant(self, 'k%d' % i, v, k))); pool.append(k)
+    regs = []
+    for i in range(p.get('n_regs', 0)):
+        q = self.wire('q%d' % i, rng.randint(1, max_w)); pool.append(q); regs.append(q)
+    recipe = list(pre)
+    cnt = [0]
+    def new(wd):
+        cnt[0] += 1
+        return self.wire('t%d' % cnt[0], wd)
+    recent = []
+    def pick():
+        mode = rng.random()
+        if mode < p.get('p_far', .25) and pool: return pool[rng.randrange(min(3, len(pool)))]      # long forward edges from the first wires
+        if mode < p.get('p_far', .25) + p.get('p_near', .35) and recent: return rng.choice(recent[-3:])   # deep chains
+        return rng.choice(pool)
+    _pick = pick
+    def pick(*avoid):
+        # distinct_pins: the pins of one child get different wires (otherwise placeAndRoute's 'Multiple nets between
+        # source and sink' exception aborts pass-through creation early and the rest of that code is not exercised)
+        for _ in range(8):
+            w = _pick()
+            if not p.get('distinct_pins') or all(w is not x for x in avoid): return w
+        return w
+    def pick1(*avoid):
+        c = [w for w in pool if w.getWidth() == 1 and (not p.get('distinct_pins') or all(w is not x for x in avoid))]
+        if c: return rng.choice(c)
+        a = pick(); r = new(1); i = rng.randrange(a.getWidth()); n = cnt[0]
+        recipe.append(('bit', lambda: py4hw.Bit(self, 'b%d' % n, a, i, r)))
+        pool.append(r); return r
+    kinds = p.get('kinds') or ['and2', 'or2', 'xor2', 'not', 'add', 'addco', 'sub', 'mul', 'mux2', 'range', 'concat', 'shl', 'const', 'sext',
+                               'neg', 'cmp', 'buf', 'andn', 'same2', 'abs', 'equal']
+    for k in range(p['n_blocks']):
+        kind = rng.choice(kinds); n = 'u%d' % k
+        if kind == 'same2' and p.get('distinct_pins'): kind = 'xor2'
+        a = pick(); b = pick(a)
+        if kind in ('and2', 'or2', 'xor2'):
+            r = new(rng.choice([a.getWidth(), b.getWidth()]))
+            cls = {'and2': py4hw.And2, 'or2': py4hw.Or2, 'xor2': py4hw.Xor2}[kind]
+            recipe.append((kind, lambda cls=cls, n=n, a=a, b=b, r=r: cls(self, n, a, b, r)))
+        elif kind == 'same2':                         # one wire on two pins of the same child
+            r = new(a.getWidth())
+            cls = rng.choice([py4hw.And2, py4hw.Xor2, py4hw.Add])
+            recipe.append((kind, lambda cls=cls, n=n, a=a, r=r: cls(self, n, a, a, r)))
+        elif kind == 'andn':
+            m = rng.randint(3, 5); xs = []
+            for _ in range(m): xs.append(pick(*xs))
+            r = new(xs[0].getWidth())
+            cls = rng.choice([py4hw.And, py4hw.Or])
+            recipe.append((kind, lambda cls=cls, n=n, xs=xs, r=r: cls(self, n, xs, r)))
+        elif kind == 'not':
+            r = new(a.getWidth()); recipe.append((kind, lambda n=n, a=a, r=r: py4hw.Not(self, n, a, r)))
+        elif kind == 'buf':
+            r = new(a.getWidth()); recipe.append((kind, lambda n=n, a=a, r=r: py4hw.Buf(self, n, a, r)))
+        elif kind in ('add', 'addco'):
+            r = new(a.getWidth()); co = new(1) if kind == 'addco' else None
+            recipe.append((kind, lambda n=n, a=a, b=b, r=r, co=co: py4hw.Add(self, n, a, b, r, co=co)))
+            if co is not None: pool.append(co)
+        elif kind == 'sub':
+            r = new(a.getWidth()); recipe.append((kind, lambda n=n, a=a, b=b, r=r: py4hw.Sub(self, n, a, b, r)))
+        elif kind == 'mul':
+            r = new(rng.randint(1, max_w)); recipe.append((kind, lambda n=n, a=a, b=b, r=r: py4hw.Mul(self, n, a, b, r)))
+        elif kind == 'neg':
+            r = new(a.getWidth()); recipe.append((kind, lambda n=n, a=a, r=r: py4hw.Neg(self, n, a, r)))
+        elif kind == 'abs':
+            r = new(a.getWidth()); recipe.append((kind, lambda n=n, a=a, r=r: py4hw.Abs(self, n, a, r)))
+        elif kind == 'equal':
+            if a.getWidth() != b.getWidth():
+                b = new(a.getWidth()); recipe.append(('const', lambda n=n, b=b: py4hw.Constant(self, n + 'k', 1, b)))
+            r = new(1); recipe.append((kind, lambda n=n, a=a, b=b, r=r: py4hw.Equal(self, n, a, b, r)))
+        elif kind == 'mux2':
+            s = pick1(a, b); r = new(a.getWidth())
+            recipe.append((kind, lambda n=n, s=s, a=a, b=b, r=r: py4hw.Mux2(self, n, s, a, b, r)))
+        elif kind == 'range':
+            hi = rng.randrange(a.getWidth()); lo = rng.randint(0, hi); r = new(hi - lo + 1)
+            recipe.append((kind, lambda n=n, a=a, hi=hi, lo=lo, r=r: py4hw.Range(self, n, a, hi, lo, r)))
+        elif kind == 'concat':
+            r = new(a.getWidth() + b.getWidth())
+            recipe.append((kind, lambda n=n, a=a, b=b, r=r: py4hw.ConcatenateMSBF(self, n, [a, b], r)))
+        elif kind == 'shl':
+            r = new(a.getWidth()); sh = rng.randint(0, max_w)
+            recipe.append((kind, lambda n=n, a=a, sh=sh, r=r: py4hw.ShiftLeftConstant(self, n, a, sh, r)))
+        elif kind == 'const':
+            r = new(rng.randint(1, max_w)); v = rng.randrange(1 << r.getWidth())
+            recipe.append((kind, lambda n=n, v=v, r=r: py4hw.Constant(self, n, v, r)))
+        elif kind == 'sext':
+            r = new(a.getWidth() + rng.randint(0, 4))
+            recipe.append((kind, lambda n=n, a=a, r=r: py4hw.SignExtend(self, n, a, r)))
+        elif kind == 'cmp':
+            if a.getWidth() != b.getWidth():
+                b = new(a.getWidth()); recipe.append(('const', lambda n=n, b=b: py4hw.Constant(self, n + 'k', 1, b)))
+            gt, eq, lt = new(1), new(1), new(1)
+            recipe.append((kind, lambda n=n, a=a, b=b, gt=gt, eq=eq, lt=lt: py4hw.Comparator(self, n, a, b, gt, eq, lt)))
+            pool.extend([gt, eq]); r = lt
+        pool.append(r); recent.append(r)
+    for i, q in enumerate(regs):
+        cands = [w for w in pool if w.getWidth() == q.getWidth() and (w is not q or p.get('self_loop'))]
+        if p.get('deep_feedback') and recent and i == 0:
+            # the loop closes from the deepest logic: the feedback source ends up in the right-most instance column
+            src = recent[-1]
+            if src.getWidth() == q.getWidth() and rng.random() < .5: d = src
+            else:
+                d = new(q.getWidth()); recipe.append(('buf', lambda src=src, d=d, i=i: py4hw.Buf(self, 'rb%d' % i, src, d)))
+        elif p.get('self_loop') and rng.random() < .5: d = q
+        elif cands: d = rng.choice(cands)
+        else:
+            src = pick(); d = new(q.getWidth()); recipe.append(('buf', lambda src=src, d=d, i=i: py4hw.Buf(self, 'rb%d' % i, src, d)))
+        en = pick1(d) if rng.random() < .5 else None
+        rs = pick1(d, en) if rng.random() < .5 else None
+        recipe.append(('reg', lambda i=i, d=d, q=q, en=en, rs=rs: py4hw.Reg(self, 'r%d' % i, d, q, enable=en, reset=rs)))
+    # out-ports: driven through a Buf from a random internal wire (widths follow), or feed-through of an in-port
+    for j, o in enumerate(outs):
+        self.addOut('out%d' % j, o)
+        src = rng.choice(pool[len(ins):] or pool)
+        recipe.append(('obuf', lambda j=j, src=src, o=o: py4hw.Buf(self, 'ob%d' % j, src, o)))
+    if p.get('shuffle', True): rng.shuffle(recipe)
+    for _, mk in recipe: mk()
+    self.recipe_kinds = [k for k, _ in recipe]
+
+
 def _rand_block_class():
     py4hw = quiet_import()
 
     class RandBlock(py4hw.Logic):
-        """ports are real InPort/OutPort objects of this block; every internal wire is driven by construction
-        (block in-port, child output); combinational part acyclic, feedback only through Reg; children are
-        instantiated in a shuffled order"""
+        """ports are real InPort/OutPort objects of this block"""
         def __init__(self, parent, name, ins, outs, rng, p):
             super().__init__(parent, name)
-            max_w = p.get('max_w', 8)
-            pool = []
-            for i, w in enumerate(ins):
-                pool.append(self.addIn('in%d' % i, w))
-            if p.get('unused_in') and len(pool) > 1:
-                pool.pop(rng.randrange(len(pool)))            # an in-port nobody reads
-            regs = []
-            for i in range(p.get('n_regs', 0)):
-                q = self.wire('q%d' % i, rng.randint(1, max_w)); pool.append(q); regs.append(q)
-            recipe = []
-            cnt = [0]
-            def new(wd):
-                cnt[0] += 1
-                return self.wire('t%d' % cnt[0], wd)
-            recent = []
-            def pick():
-                mode = rng.random()
-                if mode < p.get('p_far', .25) and pool: return pool[rng.randrange(min(3, len(pool)))]      # long forward edges from the first wires
-                if mode < p.get('p_far', .25) + p.get('p_near', .35) and recent: return rng.choice(recent[-3:])   # deep chains
-                return rng.choice(pool)
-            _pick = pick
-            def pick(*avoid):
-                # distinct_pins: the pins of one child get different wires (otherwise placeAndRoute's 'Multiple nets between
-                # source and sink' exception aborts pass-through creation early and the rest of that code is not exercised)
-                for _ in range(8):
-                    w = _pick()
-                    if not p.get('distinct_pins') or all(w is not x for x in avoid): return w
-                return w
-            def pick1(*avoid):
-                c = [w for w in pool if w.getWidth() == 1 and (not p.get('distinct_pins') or all(w is not x for x in avoid))]
-                if c: return rng.choice(c)
-                a = pick(); r = new(1); i = rng.randrange(a.getWidth()); n = cnt[0]
-                recipe.append(('bit', lambda: py4hw.Bit(self, 'b%d' % n, a, i, r)))
-                pool.append(r); return r
-            kinds = p.get('kinds') or ['and2', 'or2', 'xor2', 'not', 'add', 'addco', 'sub', 'mul', 'mux2', 'range', 'concat', 'shl', 'const', 'sext',
-                                       'neg', 'cmp', 'buf', 'andn', 'same2', 'abs', 'equal']
-            for k in range(p['n_blocks']):
-                kind = rng.choice(kinds); n = 'u%d' % k
-                if kind == 'same2' and p.get('distinct_pins'): kind = 'xor2'
-                a = pick(); b = pick(a)
-                if kind in ('and2', 'or2', 'xor2'):
-                    r = new(rng.choice([a.getWidth(), b.getWidth()]))
-                    cls = {'and2': py4hw.And2, 'or2': py4hw.Or2, 'xor2': py4hw.Xor2}[kind]
-                    recipe.append((kind, lambda cls=cls, n=n, a=a, b=b, r=r: cls(self, n, a, b, r)))
-                elif kind == 'same2':                         # one wire on two pins of the same child
-                    r = new(a.getWidth())
-                    cls = rng.choice([py4hw.And2, py4hw.Xor2, py4hw.Add])
-                    recipe.append((kind, lambda cls=cls, n=n, a=a, r=r: cls(self, n, a, a, r)))
-                elif kind == 'andn':
-                    m = rng.randint(3, 5); xs = []
-                    for _ in range(m): xs.append(pick(*xs))
-                    r = new(xs[0].getWidth())
-                    cls = rng.choice([py4hw.And, py4hw.Or])
-                    recipe.append((kind, lambda cls=cls, n=n, xs=xs, r=r: cls(self, n, xs, r)))
-                elif kind == 'not':
-                    r = new(a.getWidth()); recipe.append((kind, lambda n=n, a=a, r=r: py4hw.Not(self, n, a, r)))
-                elif kind == 'buf':
-                    r = new(a.getWidth()); recipe.append((kind, lambda n=n, a=a, r=r: py4hw.Buf(self, n, a, r)))
-                elif kind in ('add', 'addco'):
-                    r = new(a.getWidth()); co = new(1) if kind == 'addco' else None
-                    recipe.append((kind, lambda n=n, a=a, b=b, r=r, co=co: py4hw.Add(self, n, a, b, r, co=co)))
-                    if co is not None: pool.append(co)
-                elif kind == 'sub':
-                    r = new(a.getWidth()); recipe.append((kind, lambda n=n, a=a, b=b, r=r: py4hw.Sub(self, n, a, b, r)))
-                elif kind == 'mul':
-                    r = new(rng.randint(1, max_w)); recipe.append((kind, lambda n=n, a=a, b=b, r=r: py4hw.Mul(self, n, a, b, r)))
-                elif kind == 'neg':
-                    r = new(a.getWidth()); recipe.append((kind, lambda n=n, a=a, r=r: py4hw.Neg(self, n, a, r)))
-                elif kind == 'abs':
-                    r = new(a.getWidth()); recipe.append((kind, lambda n=n, a=a, r=r: py4hw.Abs(self, n, a, r)))
-                elif kind == 'equal':
-                    if a.getWidth() != b.getWidth():
-                        b = new(a.getWidth()); recipe.append(('const', lambda n=n, b=b: py4hw.Constant(self, n + 'k', 1, b)))
-                    r = new(1); recipe.append((kind, lambda n=n, a=a, b=b, r=r: py4hw.Equal(self, n, a, b, r)))
-                elif kind == 'mux2':
-                    s = pick1(a, b); r = new(a.getWidth())
-                    recipe.append((kind, lambda n=n, s=s, a=a, b=b, r=r: py4hw.Mux2(self, n, s, a, b, r)))
-                elif kind == 'range':
-                    hi = rng.randrange(a.getWidth()); lo = rng.randint(0, hi); r = new(hi - lo + 1)
-                    recipe.append((kind, lambda n=n, a=a, hi=hi, lo=lo, r=r: py4hw.Range(self, n, a, hi, lo, r)))
-                elif kind == 'concat':
-                    r = new(a.getWidth() + b.getWidth())
-                    recipe.append((kind, lambda n=n, a=a, b=b, r=r: py4hw.ConcatenateMSBF(self, n, [a, b], r)))
-                elif kind == 'shl':
-                    r = new(a.getWidth()); sh = rng.randint(0, max_w)
-                    recipe.append((kind, lambda n=n, a=a, sh=sh, r=r: py4hw.ShiftLeftConstant(self, n, a, sh, r)))
-                elif kind == 'const':
-                    r = new(rng.randint(1, max_w)); v = rng.randrange(1 << r.getWidth())
-                    recipe.append((kind, lambda n=n, v=v, r=r: py4hw.Constant(self, n, v, r)))
-                elif kind == 'sext':
-                    r = new(a.getWidth() + rng.randint(0, 4))
-                    recipe.append((kind, lambda n=n, a=a, r=r: py4hw.SignExtend(self, n, a, r)))
-                elif kind == 'cmp':
-                    if a.getWidth() != b.getWidth():
-                        b = new(a.getWidth()); recipe.append(('const', lambda n=n, b=b: py4hw.Constant(self, n + 'k', 1, b)))
-                    gt, eq, lt = new(1), new(1), new(1)
-                    recipe.append((kind, lambda n=n, a=a, b=b, gt=gt, eq=eq, lt=lt: py4hw.Comparator(self, n, a, b, gt, eq, lt)))
-                    pool.extend([gt, eq]); r = lt
-                pool.append(r); recent.append(r)
-            for i, q in enumerate(regs):
-                cands = [w for w in pool if w.getWidth() == q.getWidth() and (w is not q or p.get('self_loop'))]
-                if p.get('self_loop') and rng.random() < .5: d = q
-                elif cands: d = rng.choice(cands)
-                else:
-                    src = pick(); d = new(q.getWidth()); recipe.append(('buf', lambda src=src, d=d, i=i: py4hw.Buf(self, 'rb%d' % i, src, d)))
-                en = pick1(d) if rng.random() < .5 else None
-                rs = pick1(d, en) if rng.random() < .5 else None
-                recipe.append(('reg', lambda i=i, d=d, q=q, en=en, rs=rs: py4hw.Reg(self, 'r%d' % i, d, q, enable=en, reset=rs)))
-            # out-ports: driven through a Buf from a random internal wire (widths follow), or feed-through of an in-port
-            for j, o in enumerate(outs):
-                self.addOut('out%d' % j, o)
-                src = rng.choice(pool[len(ins):] or pool)
-                recipe.append(('obuf', lambda j=j, src=src, o=o: py4hw.Buf(self, 'ob%d' % j, src, o)))
-            if p.get('shuffle', True): rng.shuffle(recipe)
-            for _, mk in recipe: mk()
-            self.recipe_kinds = [k for k, _ in recipe]
+            _populate(self, py4hw, ins, outs, rng, p)
     return RandBlock
 
 
@@ -234,6 +251,15 @@ def rand_params(rng, i):
         {'n_blocks': 4, 'n_in': 0, 'n_out': 1, 'n_regs': 1, 'kinds': ['const', 'not', 'add']},    # no in-ports at all
         {'n_blocks': 9, 'n_in': 5, 'n_out': 1, 'n_regs': 0, 'p_far': .7, 'p_near': .2, 'shuffle': False},
         {'n_blocks': 16, 'n_in': 3, 'n_out': 3, 'n_regs': 3},
+    ]
+    shapes += [
+        # blocks WITHOUT out-ports (monitors / checkers): no port column to the right of the deepest instance
+        {'n_blocks': 5, 'n_in': 2, 'n_out': 0, 'n_regs': 2, 'deep_feedback': True, 'p_near': .7, 'p_far': .1},
+        {'n_blocks': 8, 'n_in': 3, 'n_out': 0, 'n_regs': 1, 'deep_feedback': True},
+        {'n_blocks': 4, 'n_in': 1, 'n_out': 0, 'n_regs': 1, 'deep_feedback': True, 'kinds': ['add', 'not', 'buf', 'and2'], 'shuffle': False},
+        {'n_blocks': 6, 'n_in': 2, 'n_out': 0, 'n_regs': 2},
+        # out-ports only, loop closing from the deepest logic
+        {'n_blocks': 6, 'n_in': 0, 'n_out': 2, 'n_regs': 2, 'n_const_src': 1, 'deep_feedback': True},
     ]
     p = dict(shapes[i % len(shapes)])
     if i % 50 == 49: p.update(n_blocks=rng.choice([25, 40]), n_in=4, n_out=3, n_regs=rng.choice([0, 3, 6]))      # big ones (thorough tier reaches them)
@@ -255,6 +281,72 @@ def build_rand(seed, p):
         outs = [hw.wire('q%d' % j, rng.randint(1, p.get('max_w', 8))) for j in range(p['n_out'])]
         obj = RandBlock(hw, 'dut', ins, outs, rng, p)
     return obj
+
+
+def top_params(rng, i):
+    """a whole port-less HWSystem is drawn (test-bench style): constants instead of inputs, nothing leaves"""
+    shapes = [
+        {'n_blocks': 3, 'n_regs': 1, 'n_const_src': 1, 'deep_feedback': True, 'kinds': ['add', 'not', 'buf', 'xor2']},
+        {'n_blocks': 6, 'n_regs': 2, 'n_const_src': 2, 'deep_feedback': True},
+        {'n_blocks': 5, 'n_regs': 1, 'n_const_src': 1, 'deep_feedback': True, 'p_near': .8, 'p_far': .1, 'shuffle': False},
+        {'n_blocks': 8, 'n_regs': 0, 'n_const_src': 3},
+        {'n_blocks': 10, 'n_regs': 3, 'n_const_src': 2},
+        {'n_blocks': 12, 'n_regs': 2, 'n_const_src': 2, 'deep_feedback': True, 'p_near': .6},
+    ]
+    p = dict(shapes[i % len(shapes)])
+    p.update(n_in=0, n_out=0, max_w=rng.choice([1, 4, 8]), distinct_pins=(i // len(shapes)) % 2 == 0)
+    return p
+
+
+def build_top(seed, p):
+    py4hw = quiet_import()
+    rng = random.Random(seed)
+    with quiet():
+        hw = py4hw.HWSystem()
+        _populate(hw, py4hw, [], [], rng, p)
+    return hw
+
+
+def build_loop(variant):
+    """the accumulator loop  nxt = acc + a ; acc <= nxt  in blocks with every combination of port sides.
+    variant = (ports, order, extra): ports 'none' (a bare HWSystem drawn as a whole) | 'in' (monitor: inputs only) |
+    'out' (outputs only) | 'both'; order 'add_first' | 'reg_first' (instantiation order decides which of the two ends up
+    in the deeper grid column); extra = number of Bufs between the adder and the register's d pin."""
+    py4hw = quiet_import()
+    ports, order, extra = variant
+
+    def fill(self, a, acc, en):
+        nxt = self.wire('nxt', acc.getWidth())
+        def mk_add(): py4hw.Add(self, 'sum', acc, a, nxt)
+        def mk_reg():
+            last = nxt
+            for i in range(extra):
+                b = self.wire('b%d' % i, acc.getWidth()); py4hw.Buf(self, 'buf%d' % i, last, b); last = b
+            py4hw.Reg(self, 'accreg', last, acc, enable=en)
+        for f in ((mk_add, mk_reg) if order == 'add_first' else (mk_reg, mk_add)): f()
+
+    class Loop(py4hw.Logic):
+        def __init__(self, parent, name, a, en, r):
+            super().__init__(parent, name)
+            if a is not None:
+                self.addIn('a', a); self.addIn('en', en)
+            else:
+                a = self.wire('one', 8); py4hw.Constant(self, 'one', 1, a); en = None
+            if r is not None: acc = self.addOut('r', r)
+            else: acc = self.wire('acc', 8)
+            fill(self, a, acc, en)
+    with quiet():
+        hw = py4hw.HWSystem()
+        if ports == 'none':
+            one = hw.wire('one', 8); py4hw.Constant(hw, 'one', 1, one)
+            fill(hw, one, hw.wire('q', 8), None)
+            return hw
+        a, en = (hw.wire('a', 8), hw.wire('en')) if ports in ('in', 'both') else (None, None)
+        r = hw.wire('r', 8) if ports in ('out', 'both') else None
+        return Loop(hw, 'dut', a, en, r)
+
+
+LOOPS = [(ports, order, extra) for ports in ('none', 'in', 'out', 'both') for order in ('add_first', 'reg_first') for extra in (0, 2)]
 
 
 def build_selfloop(variant):
@@ -286,5 +378,7 @@ SELFLOOPS = [('e', 0), ('r', 0), ('d', 0), ('e', 1), ('e', 3), ('d', 2)]
 def build(recipe):
     if recipe[0] == 'lib': return build_lib(recipe[1], tuple(recipe[2]))
     if recipe[0] == 'selfloop': return build_selfloop(tuple(recipe[1]))
+    if recipe[0] == 'loop': return build_loop(tuple(recipe[1]))
+    if recipe[0] == 'top': return build_top(recipe[1], recipe[2])
     if recipe[0] == 'rand': return build_rand(recipe[1], recipe[2])
     raise ValueError(recipe)
